@@ -136,7 +136,10 @@ def _judge(ctx, case, produce, expected_instrs=None, header=None, flav="vanilla"
         if out:
             ctx.fail(case, "harness: a value outside the field range round-tripped", key=None)
     else:
-        what = f"{expected_instrs if expected_instrs is not None else header} was encoded without error and decodes as {got if expected_instrs is not None else ghead}"
+        if header is not None and (ghead != header):
+            what = f"header (version, app id) {header} was encoded without error and decodes as {ghead}"
+        else:
+            what = f"{expected_instrs if expected_instrs is not None else header} was encoded without error and decodes as {got if expected_instrs is not None else ghead}"
         ctx.fail(case, ("silently altered: " if out else "in-range twin altered: ") + what)
 
 
